@@ -4,6 +4,7 @@
   the live objects.  Re-decided by the kernel on every run against the regenerated DemoConf.
 -/
 import Spil.Generated.DemoConf
+import Spil.Spec.Sid
 
 open Generated
 
@@ -45,5 +46,11 @@ theorem extrapolate_ok :
 
 /-- the effective templates are what the 'sid' Resolver was given -/
 theorem patterns_ok : demoSidPatterns = demoEffectiveTemplates := by decide +kernel
+
+/-- the shipped sid template table follows the documented conventions the generic theorems assume
+    (placeholders separated by '/', slash-free group-free expressions that are free or
+    newline-free, distinct keys, distinct non-empty plain labels, same key set ⇒ same key order,
+    every level has a type) -/
+theorem demo_wf : Spec.sidHierOk demoEnv demoConf.sid.templates = true := by decide +kernel
 
 end Tie
